@@ -17,6 +17,7 @@ import (
 func init() {
 	zzsv.Register("ZZ_C03_Programs", ZZ_C03_Programs)
 	zzsv.Register("ZZ_C03_Literals", ZZ_C03_Literals)
+	zzsv.Register("ZZ_C03_LongPrograms", ZZ_C03_LongPrograms)
 }
 
 // zzSameObj: two results of the implementation are the same value.
@@ -328,4 +329,57 @@ func ZZ_C03_Literals(sv *zzsv.T) {
 		zzDescribe(sv, "opt", o1, r1)
 		zzCompareTwo(sv, "C03.lit", e1, e2, o1, o2, r1, r2, tr1, tr2, []string{"x"})
 	}
+}
+
+// ZZ_C03_LongPrograms: programs longer than 256 bytes of code, so that the
+// optimizer's rewriting moves jump targets across the boundaries where the
+// high byte of a 16-bit operand changes: foldable statements, then padding
+// of every length (two statement kinds of different size, counts chosen
+// freely), then if/else, while, ternary and foreach whose conditions are
+// symbolic. Optimized and unoptimized must agree.
+func ZZ_C03_LongPrograms(sv *zzsv.T) {
+	src := zzLongProgram(sv)
+	sv.Note("script", src)
+	a := sv.Int64("A")
+	var tr1, tr2 []object.Object
+	mk := func(noopt bool, tr *[]object.Object) *Eval {
+		e := New(src)
+		e.AddFunction("t", func(args []object.Object) object.Object {
+			*tr = append(*tr, args[0])
+			return &object.Void{}
+		})
+		e.SetVariable("A", &object.Integer{Value: a})
+		e.SetVariable("p", &object.Integer{Value: 0})
+		var flags []byte
+		if noopt {
+			flags = append(flags, NoOptimize)
+		}
+		if e.Prepare(flags) != nil {
+			return nil
+		}
+		return e
+	}
+	e1, e2 := mk(false, &tr1), mk(true, &tr2)
+	sv.Assert("C03.long.prepares", e1 != nil && e2 != nil)
+	if e1 == nil || e2 == nil {
+		return
+	}
+	sv.Observe("code", len(e2.instructions) > 256)
+	o1, r1 := e1.Execute(nil)
+	o2, r2 := e2.Execute(nil)
+	zzDescribe(sv, "opt", o1, r1)
+	zzCompareTwo(sv, "C03.long", e1, e2, o1, o2, r1, r2, tr1, tr2, []string{"u", "v", "n", "w", "p"})
+}
+
+func zzLongProgram(sv *zzsv.T) string {
+	n1 := sv.Choice("pad.assign", sv.Param("long.pad1", 40, 80))
+	n2 := sv.Choice("pad.call", 4)
+	src := "u = 1 + 2; v = 3 * 4; "
+	for i := 0; i < n1; i++ {
+		src += "p = p + 1; "
+	}
+	for i := 0; i < n2; i++ {
+		src += "t(p); "
+	}
+	return src + "if (A > 3) { t(1); } else { t(2); } n = 0; while (n < 2) { n = n + 1; t(n); } w = A ? 5 + 6 : 7; foreach x in [1, 2] { t(x + w); } return u + v + n + p;"
 }
